@@ -204,3 +204,169 @@ def ob_send_sd_refines(vc):
 
 
 SEND_SD_OBLIGATIONS = [ob_send_sd_refines]
+
+
+# ---------------------------------------------------------------------------- ServiceDiscoveryProtocol.message_received
+from contracts import looplib as LL  # noqa: E402
+
+
+def is_sd_notification(m):
+    """PRS_SOMEIPSD_00003 ff.: service 0xFFFF, method 0x8100, interface 1, notification, E_OK"""
+    return (
+        m.service_id == SD_SERVICE_ID
+        and m.method_id == SD_METHOD_ID
+        and m.interface_version == SD_INTERFACE
+        and m.message_type == H.SOMEIPMessageType.NOTIFICATION
+        and m.return_code == H.SOMEIPReturnCode.E_OK
+    )
+
+
+def ob_sd_message_received(vc):
+    """ServiceDiscoveryProtocol.message_received for an arbitrary SOME/IP message, sender,
+    channel and session table (SOMEIPSDHeader.parse by contract: any header, or an error):
+      * never raises;
+      * not an SD notification, or an undecodable payload: no effect at all (frame: session
+        table, event loop, transport, sd_message_received untouched);
+      * otherwise check_received is called exactly once with (addr, channel, reboot flag of
+        the SD header, session id of the SOME/IP header); iff it reports a reboot, each of
+        subscriber / discovery / announcer gets reboot_detected(addr) queued exactly once,
+        before the entries of the message are handed on; the resolved message is handed to
+        sd_message_received exactly once with addr and the channel."""
+    from contracts import spec_header as SH
+
+    loop = vc.install_loop(LL.FakeLoop(vc.real("now", 0)))
+    prot, sent = gen_sd_protocol(vc, "prot")
+    sa, sb = gen_storage(vc, "st")
+    prot.session_storage = sa
+    checks = vc.spy(sa, "check_received")
+    ready_at_handover = []
+
+    def on_sd(h, a, m):
+        ready_at_handover.append(len(loop.ready))
+
+    handed = vc.stub(prot, "sd_message_received", on_sd)
+    msg = SH.gen_message(vc, "msg")
+    addr = gen_addr(vc, "addr")
+    multicast = vc.bool("multicast")
+    o = vc.outcome(vc.body(SD.ServiceDiscoveryProtocol.message_received), prot, msg, addr, multicast)
+    parsed = vc.outcome(H.SOMEIPSDHeader.parse, msg.payload) if is_sd_notification(msg) else None
+    region = ""
+    if parsed is not None and vc.is_exc(parsed, UnicodeDecodeError):
+        region = "@unicode_error_from_sd_decoder"
+    vc.check(o.kind == "ret", "sd.message_received.never_raises" + region)
+    if parsed is None or parsed.kind == "raise":
+        vc.cover("rejected")
+        vc.check_eq(len(checks), 0, "sd.message_received.rejected.no_session_check" + region)
+        vc.check_eq(sa.incoming, sb.incoming, "sd.message_received.rejected.session_state_untouched" + region)
+        vc.check_eq(sa.outgoing, sb.outgoing, "sd.message_received.rejected.outgoing_untouched" + region)
+        vc.check_eq(len(loop.ready) + len(loop.timers) + len(loop.tasks), 0, "sd.message_received.rejected.nothing_scheduled" + region)
+        vc.check_eq(len(sent), 0, "sd.message_received.rejected.nothing_sent" + region)
+        vc.check_eq(len(handed), 0, "sd.message_received.rejected.entries_not_processed" + region)
+        return
+    vc.cover("accepted")
+    sdhdr, rest = parsed.value
+    vc.check_eq(len(checks), 1, "sd.message_received.one_session_check")
+    if len(checks) == 1:
+        vc.check_eq(checks[0], (addr, multicast, sdhdr.flag_reboot, msg.session_id), "sd.message_received.session_check_arguments")
+    rebooted = check_received(sb, addr, multicast, sdhdr.flag_reboot, msg.session_id)
+    vc.check_eq(sa.incoming, sb.incoming, "sd.message_received.session_state_updated_once")
+    pend = loop.pending()
+    n_sub = len([1 for p in pend if p == (prot.subscriber.reboot_detected, (addr,))])
+    n_dis = len([1 for p in pend if p == (prot.discovery.reboot_detected, (addr,))])
+    n_ann = len([1 for p in pend if p == (prot.announcer.reboot_detected, (addr,))])
+    if rebooted:
+        vc.cover("reboot")
+        vc.check(n_sub == 1 and n_dis == 1 and n_ann == 1, "sd.message_received.reboot_reaches_each_part_exactly_once")
+        vc.check_eq(len(pend), 3, "sd.message_received.reboot_schedules_nothing_else")
+    else:
+        vc.check_eq(len(pend), 0, "sd.message_received.no_reboot_no_fanout")
+    vc.check_eq(len(handed), 1, "sd.message_received.entries_handed_on_once")
+    if len(handed) == 1:
+        vc.check_eq(handed[0][1:], (addr, multicast), "sd.message_received.handed_on_with_addr_and_channel")
+        vc.check_eq(handed[0][0], sdhdr.resolve_options(), "sd.message_received.handed_on_resolved")
+        vc.check_eq(ready_at_handover[0], len(pend), "sd.message_received.reboot_queued_before_entries")
+    vc.check_eq(len(sent), 0, "sd.message_received.sends_nothing_itself")
+
+
+MESSAGE_RECEIVED_OBLIGATIONS = [ob_sd_message_received]
+
+
+# ---------------------------------------------------------------------------- sd_message_received (entry dispatch)
+
+
+def _sdm_head(vc, v, entering):
+    vc.stash("sdm.entering", entering)
+    if entering:
+        vc.stash("sdm.entry", v["entry"])
+
+
+LOOPS = {
+    ("someip.sd.ServiceDiscoveryProtocol.sd_message_received", 0): {"head": _sdm_head},
+}
+
+
+def _gen_resolved_entry(vc, name):
+    from contracts.spec_config import gen_entry
+
+    return gen_entry(vc, name, resolved=True)
+
+
+def ob_sd_message_dispatch(vc):
+    """sd_message_received: a message whose unicast flag is clear has no effect at all;
+    otherwise each entry (arbitrary position in a message of arbitrary length) is dispatched
+    exactly once by its type: an Offer is queued for the discovery part, a FindService goes
+    to the announcer together with the channel it arrived on, a Subscribe goes to the
+    announcer only if it arrived by unicast, a SubscribeAck changes nothing."""
+    loop = vc.install_loop(LL.FakeLoop(vc.real("now", 0)))
+    prot, sent = gen_sd_protocol(vc, "prot")
+    finds = vc.stub(prot.announcer, "handle_findservice")
+    subs = vc.stub(prot.announcer, "handle_subscribe")
+    sdhdr = H.SOMEIPSDHeader(
+        entries=vc.seq("entries", _gen_resolved_entry),
+        options=vc.opaque_seq("options", "option"),
+        flag_reboot=vc.bool("flag_reboot"),
+        flag_unicast=vc.bool("flag_unicast"),
+        flags_unknown=vc.int("flags_unknown", 0, 63),
+    )
+    addr = gen_addr(vc, "addr")
+    multicast = vc.bool("multicast")
+    vc.arm_cut(SD.ServiceDiscoveryProtocol.sd_message_received, 0)
+    o = vc.outcome(vc.body(SD.ServiceDiscoveryProtocol.sd_message_received), prot, sdhdr, addr, multicast)
+    vc.check(o.kind != "raise", "sd_message_received.never_raises")
+    pend = loop.pending()
+    if vc.native:
+        # a replay sees the effects of the first entry only (or of none)
+        if not sdhdr.flag_unicast or len(sdhdr.entries) == 0:
+            vc.check_eq(len(pend) + len(finds) + len(subs) + len(sent), 0, "sd_message_received.no_effect")
+            return
+        entry = sdhdr.entries[0]
+    else:
+        if not sdhdr.flag_unicast:
+            vc.cover("multicast-only")
+            vc.check(vc.stashed("sdm.entering") is None, "sd_message_received.unicast_flag_clear.entries_ignored")
+            vc.check_eq(len(pend) + len(finds) + len(subs) + len(sent), 0, "sd_message_received.unicast_flag_clear.no_effect")
+            return
+        if not vc.stashed("sdm.entering"):
+            vc.check_eq(len(pend) + len(finds) + len(subs) + len(sent), 0, "sd_message_received.after_last_entry.no_effect")
+            return
+        entry = vc.stashed("sdm.entry")
+    t = entry.sd_type
+    exp_pend = []
+    exp_finds = []
+    exp_subs = []
+    if t == H.SOMEIPSDEntryType.OfferService:
+        vc.cover("offer")
+        exp_pend = [(prot.discovery.handle_offer, (entry, addr))]
+    elif t == H.SOMEIPSDEntryType.FindService:
+        vc.cover("find")
+        exp_finds = [(entry, addr, multicast)]
+    elif t == H.SOMEIPSDEntryType.Subscribe and not multicast:
+        vc.cover("subscribe")
+        exp_subs = [(entry, addr)]
+    vc.check_eq(pend, exp_pend, "sd_message_received.entry.queued_for_discovery")
+    vc.check_eq(finds, exp_finds, "sd_message_received.entry.find_to_announcer_with_channel")
+    vc.check_eq(subs, exp_subs, "sd_message_received.entry.subscribe_to_announcer_only_by_unicast")
+    vc.check_eq(len(sent), 0, "sd_message_received.entry.sends_nothing_itself")
+
+
+DISPATCH_OBLIGATIONS = [ob_sd_message_dispatch]
